@@ -149,6 +149,13 @@ def run(repo, chk):
             n += 1
             if not ((a | b) & {'NONE', 'BREAK', 'RETURN', 'DEFEAT', 'LOOP'}) <= r:
                 chk.fail('C16.E1', f'IfBlock.exit_modes({sorted(a)},{sorted(b)})', f'result {sorted(r)} is not the union', BLOCKS)
+            # a constant condition may make one branch dead - never the one that runs
+            for cname, cond, live in (('true', D.BoolValue(True, None), a), ('false', D.BoolValue(False, None), b)):
+                r = nm(D.IfBlock(None, D.stub(A), cond, D.stub(B)).exit_modes())
+                n += 1
+                if not (live & {'NONE', 'BREAK', 'RETURN', 'DEFEAT', 'LOOP'}) <= r:
+                    chk.fail('C16.E1', f'IfBlock.exit_modes({sorted(a)},{sorted(b)}, cond={cname})',
+                             f'result {sorted(r)} loses modes of the branch that runs ({sorted(live)})', BLOCKS)
             for hcls in ('UndoBlock', 'StopBlock'):
                 t = D.TryBlock(None, D.stub(A), getattr(D, hcls)(None, D.stub(B)))
                 r = nm(t.exit_modes())
